@@ -132,6 +132,7 @@ func (e *Engine) installStreamDef(d *StreamDef) {
 			}
 		}
 		smt := fmt.Sprintf("(declare-fun %s (%s) Int)\n(assert %s)\n", d.Name, strings.Join(sorts, " "), ax.String())
-		addPrelude(&PreludeFn{Name: d.Name, Args: args, Ret: "stream", SMT: smt, Deps: deps})
+		addPrelude(&PreludeFn{Name: d.Name, Args: args, Ret: "stream", SMT: smt, Deps: deps,
+			Decl: fmt.Sprintf("(declare-fun %s (%s) Int)", d.Name, strings.Join(sorts, " ")), Ax: ax})
 	}
 }
